@@ -19,7 +19,7 @@
 (* of the abstract case.  The trace spec never blocks: one state per       *)
 (* event, one VERDICT line per event that is not ideal.                    *)
 (***************************************************************************)
-EXTENDS AttrSurface, TLC, Json, IOUtils
+EXTENDS AttrNormSurface, TLC, Json, IOUtils
 
 CONSTANT Open            \* names of the catalogued deviations (known_findings.jsonl, status open)
 
